@@ -291,6 +291,11 @@ def run_sideb(pid, specs, props_filter=None, label='sideB', determinism=False):
             if sp.pkg in wrote:
                 res['confirmed'].append(dict(cls='%s:ill-formed program accepted' % ','.join(sp.reject_props), props=sp.reject_props,
                                              msg='wire gen accepted a program it must reject (%s)' % sp.label, artifact_dir=os.path.join(mod, sp.pkg), model=None, harness=label))
+            elif sp.pkg not in gen_fail:
+                props = sorted(set(list(sp.reject_props) + ['C20']))
+                res['confirmed'].append(dict(cls='%s:ill-formed program silently ignored' % ','.join(props), props=props,
+                                             msg='wire gen neither rejected nor generated %s (%s): no "generate failed", no diagnostic, no output' % (sp.pkg, sp.label),
+                                             artifact_dir=os.path.join(mod, sp.pkg), model=None, harness=label))
             elif getattr(sp, 'diag_must_contain', None) and sp.diag_must_contain not in pkg_diag(err, sp.pkg):
                 res['confirmed'].append(dict(cls='%s:the diagnostic does not name the type' % ','.join(sp.reject_props), props=sp.reject_props,
                                              msg='wire gen rejected %s (%s) but no diagnostic for the package mentions %r: %s' % (sp.pkg, sp.label, sp.diag_must_contain, pkg_diag(err, sp.pkg)[:300]),
@@ -320,8 +325,9 @@ def run_sideb(pid, specs, props_filter=None, label='sideB', determinism=False):
                 props += ['C12', 'C02']
             if C.BIND in kinds:
                 props += ['C11']
-            if kinds & {C.VALUE, C.IVALUE}:
+            if kinds & {C.VALUE, C.IVALUE} or sp.family == 'values':
                 props += ['C13']
+            props += list(getattr(sp, 'extra_props', None) or [])
             props = sorted(set(props))
             res['confirmed'].append(dict(cls='%s:generated package does not compile' % ','.join(props), props=props,
                                          msg='package with generated wire_gen.go does not compile (%s): %s' % (sp.label, ' | '.join(lines)),
@@ -382,6 +388,11 @@ def run_sideb(pid, specs, props_filter=None, label='sideB', determinism=False):
                 cls = 'generated injector panicked: ' + v['msg'][:120]
             if sp is not None and sp.naming == 'adversarial' and 'C14' not in props:
                 props = props + ['C14']
+            # a program written to exercise one clause of a property counts for that property whatever the
+            # trace oracle's own class is (e.g. homonymous packages: C14; values: C13)
+            for xp in (getattr(sp, 'extra_props', None) or []) + (['C13'] if sp is not None and sp.family == 'values' else []):
+                if xp not in props:
+                    props = props + [xp]
             rp = replay_driver(pid, mod, pk, v['model'])
             confirmed = rp.startswith('assert-failed') or rp.startswith('panic')
             item = dict(cls=','.join(props) + ':' + cls.split(':', 1)[-1], props=props, msg='%s [program: %s]' % (v['msg'], sp.label if sp else pk), model=v['model'],
